@@ -474,6 +474,34 @@ theorem set_attrpath_entry_appended (d : Doc) (hw : WF d) (p : Text) (seg0 seg1 
                   have hl' : b.length + 1 = o.length := by simpa using hlen1
                   simp [setOrder, this, getLast_cons_snoc, hl']
 
+/-- SPEC sanity: `set` keeps attribute names unique -/
+theorem specSet_nodup (t t' : AttrTree) (names : List Text) (v : Node) (ht : t.nodup = true)
+    (hv : (denote v).nodup = true) (h : specSet t names v = some t') : t'.nodup = true := by
+  cases t with
+  | leaf x => simp [specSet] at h
+  | node kids =>
+    simp only [specSet, Option.map_eq_some_iff] at h
+    obtain ⟨k', hk, rfl⟩ := h
+    simpa using specSetK_nodup v hv names kids k' (by simpa using ht) hk
+
+/-- SPEC sanity: `rm` keeps attribute names unique -/
+theorem specRemove_nodup (t t' : AttrTree) (names : List Text) (prune : Bool) (ht : t.nodup = true)
+    (h : specRemove t names prune = some t') : t'.nodup = true := by
+  cases t with
+  | leaf x => simp [specRemove] at h
+  | node kids =>
+    simp only [specRemove, Option.map_eq_some_iff] at h
+    obtain ⟨k', hk, rfl⟩ := h
+    simpa using specRemoveK_nodup prune names kids k' (by simpa using ht) hk
+
+/-- Names stay unique across every successful edit the refinement theorems cover (one clause of `WF`). -/
+theorem keys_preserved (t : Node) (t' : Node) (hk : KeysOK t)
+    (h : (∃ names v, (denote v).nodup = true ∧ specSet (denote t) names v = some (denote t')) ∨
+         (∃ names prune, specRemove (denote t) names prune = some (denote t'))) : KeysOK t' := by
+  rcases h with ⟨names, v, hv, h⟩ | ⟨names, prune, h⟩
+  · exact specSet_nodup _ _ names v hk hv h
+  · exact specRemove_nodup _ _ names prune hk h
+
 /-! ## Counterexamples (open known findings) -/
 
 private def A (s : String) : Node := .atom s.toList
